@@ -41,7 +41,7 @@ func Layer(r *ev.Run) {
 	if v := os.Getenv("VERIF_C12MY_SESSION"); v != "" {
 		fmt.Sscan(v, &only)
 	}
-	nA := r.Pick(30, 900)
+	nA := r.Pick(30, 600)
 	for s := 0; s < nA; s++ {
 		srng := gen.New(r.Seed, fmt.Sprintf("c12my-a-%d-%d", s, rng.Int63()))
 		if only >= 0 && s != only {
@@ -61,7 +61,7 @@ func Layer(r *ev.Run) {
 		}
 	}
 	r.Extra("mysql_big_sessions_wall_s", time.Since(tBig).Seconds())
-	nB := r.Pick(14, 500)
+	nB := r.Pick(14, 350)
 	for s := 0; s < nB; s++ {
 		srng := gen.New(r.Seed, fmt.Sprintf("c12my-b-%d-%d", s, rng.Int63()))
 		if only >= 0 && only != 2000+s {
@@ -408,6 +408,13 @@ func relaySession(r *ev.Run, rng *gen.Rand, sidx int, big *bigCase) {
 		}
 		for i := 0; i < maxWait && srv.RawInLen(1) < len(sent); i++ {
 			time.Sleep(5 * time.Millisecond) // bounded wait for bytes already sent to arrive; never a verdict input
+			if i%40 == 39 {
+				// what has arrived already differs: no point in waiting for the rest
+				part := srv.RawInConn(1)
+				if len(part) <= len(sent) && !bytes.Equal(part, sent[:len(part)]) {
+					break
+				}
+			}
 		}
 		got := srv.RawInConn(1)
 		dbOut := srv.RawOutConn(1)
